@@ -47,23 +47,46 @@ def split_conj(e):
     return [e]
 
 
+def _skolem(e, pol):
+    """replace universals in positive (existentials in negative) position by fresh constants"""
+    if z3.is_quantifier(e):
+        if (e.is_forall() and pol) or (e.is_exists() and not pol):
+            n = e.num_vars()
+            consts = [z3.FreshConst(e.var_sort(i), "sk_" + e.var_name(i)) for i in range(n)]
+            return _skolem(z3.substitute_vars(e.body(), *reversed(consts)), pol)
+        return e
+    if z3.is_and(e):
+        return z3.And(*[_skolem(c, pol) for c in e.children()])
+    if z3.is_or(e):
+        return z3.Or(*[_skolem(c, pol) for c in e.children()])
+    if z3.is_not(e):
+        return z3.Not(_skolem(e.arg(0), not pol))
+    if z3.is_implies(e):
+        return z3.Implies(_skolem(e.arg(0), not pol), _skolem(e.arg(1), pol))
+    return e
+
+
+def _split(g):
+    if z3.is_and(g):
+        out = []
+        for c in g.children():
+            out.extend(_split(c))
+        return out
+    if z3.is_or(g):
+        ch = g.children()
+        ands = [i for i, c in enumerate(ch) if z3.is_and(c)]
+        if len(ands) == 1:
+            rest = [c for i, c in enumerate(ch) if i != ands[0]]
+            return [z3.Or(*(rest + [x])) for x in _split(ch[ands[0]])]
+    if z3.is_implies(g) and z3.is_and(g.arg(1)):
+        return [z3.Implies(g.arg(0), x) for x in _split(g.arg(1))]
+    return [g]
+
+
 def skolemize_goal(goal):
-    """goal (to be proved) -> list of goals with top-level universals replaced by fresh constants"""
-    out = []
-    for g in split_conj(goal):
-        while z3.is_quantifier(g) and g.is_forall():
-            n = g.num_vars()
-            consts = [z3.FreshConst(g.var_sort(i), "sk_" + g.var_name(i)) for i in range(n)]
-            g = z3.substitute_vars(g.body(), *reversed(consts))
-        if z3.is_and(g):
-            out.extend(skolemize_goal(g))
-        elif z3.is_implies(g) and z3.is_quantifier(g.arg(1)) and g.arg(1).is_forall():
-            a = g.arg(0)
-            for sub in skolemize_goal(g.arg(1)):
-                out.append(z3.Implies(a, sub))
-        else:
-            out.append(g)
-    return out
+    """goal (to be proved) -> list of goals whose positive universals are replaced by fresh constants;
+    top-level conjunctions are split into separate (smaller) queries"""
+    return _split(_skolem(goal, True))
 
 
 def ground_terms(formulas, sorts):
@@ -88,8 +111,9 @@ def term_depth(t, cache):
     return d
 
 
-def instantiate(qhyps, ground_formulas, cap=4000, rounds=1):
-    """instances of the universally quantified hypotheses at ground terms of `ground_formulas`"""
+def instantiate(qhyps, ground_formulas, cap=4000, rounds=1, maxdepth=None):
+    """instances of the universally quantified hypotheses at ground terms of `ground_formulas`
+    (terms deeper than maxdepth are not used as instances)"""
     insts = []
     qs = []
     for h in qhyps:
@@ -106,6 +130,8 @@ def instantiate(qhyps, ground_formulas, cap=4000, rounds=1):
             for i in range(q.num_vars()):
                 sorts.add(q.var_sort(i))
         gts = ground_terms(gf + insts, sorts)
+        if maxdepth is not None:
+            gts = {s_: [t for t in ts if term_depth(t, dcache) <= maxdepth] for s_, ts in gts.items()}
         new = []
         for q in qs:
             n = q.num_vars()
@@ -128,18 +154,26 @@ def instantiate(qhyps, ground_formulas, cap=4000, rounds=1):
     return insts
 
 
+LEVELS = ((0, 2000), (2, 3000), (4, 6000), (None, None))
+
+
 def pointwise_check(qf_hyps, qhyps, goal, axioms=(), timeout_ms=10000, rounds=1):
-    """try to prove And(hyps) => goal by skolemisation + pointwise instantiation.
-    returns 'unsat' (proved) or 'unknown'"""
+    """try to prove And(hyps) => goal by skolemisation + pointwise instantiation, escalating the set of
+    instance terms (skolem/constants first).  returns 'unsat' (proved) or 'unknown'"""
     goals = skolemize_goal(goal)
     for g in goals:
-        s = z3.Solver()
-        s.set("timeout", timeout_ms)
         neg = z3.Not(g)
         base = list(axioms) + list(qf_hyps) + [neg]
-        insts = instantiate(qhyps, base, rounds=rounds)
-        s.add(*base)
-        s.add(*insts)
-        if s.check() != z3.unsat:
+        done = False
+        for maxdepth, tmo in LEVELS:
+            s = z3.Solver()
+            s.set("timeout", min(timeout_ms, tmo or timeout_ms))
+            insts = instantiate(qhyps, base, rounds=rounds, maxdepth=maxdepth)
+            s.add(*base)
+            s.add(*insts)
+            if s.check() == z3.unsat:
+                done = True
+                break
+        if not done:
             return "unknown"
     return "unsat"
